@@ -138,7 +138,10 @@ def window_path(width, via_reader):
         if via_reader:
             stream = SBytes(raw)
             n = len(stream)
-            for cuts in [(), (max(1, p),), (min(n - 1, p + 1),)]:
+            bang = FIXTURE.index(0x21)
+            ref_sig = None
+            special = sorted({max(1, p), min(n - 1, p + 1), bang, bang + 1, bang + 2, bang + 5, n - 2, n - 1})
+            for cuts in [()] + [(c,) for c in special]:
                 chunks = PC.split(stream, cuts)
                 w = {"kind": "p1", "chunks": chunks}
                 try:
@@ -151,6 +154,27 @@ def window_path(width, via_reader):
                 if ctx.witness is None:
                     ctx.witness, ctx.obs = w, PC.p1_sig(rs)
                     ctx.nontrivial()
+                # what the reader returns must not depend on the cut (the checksum after '!' may arrive in a later chunk)
+                cur = [(r.as_bytes, r.is_valid if not isinstance(r.is_valid, bool) else r.is_valid) for r in rs] if False else None
+                sig_now = []
+                for r in rs:
+                    try:
+                        v = bool(r.is_valid)
+                    except (PathAbort, EngineLimit, EngineFault):
+                        raise
+                    except Exception:
+                        v = "exc"
+                    sig_now.append((r.as_bytes, v))
+                if ref_sig is None:
+                    ref_sig = sig_now
+                else:
+                    same = len(sig_now) == len(ref_sig) and all(a[1] == b[1] and len(a[0]) == len(b[0]) for a, b in zip(sig_now, ref_sig))
+                    if not same:
+                        ctx.violation(f"reader window@{p}: readouts / validity for cuts={cuts} differ from the single-call result", {"kind": "p1", "chunks": chunks, "chunks_ref": [stream], "sub": "cutdep"})
+                        return
+                    conds = [a[0].seq_eq(b[0]) for a, b in zip(sig_now, ref_sig)]
+                    if conds and not ctx.check(z3.And(conds), f"reader window@{p} cuts={cuts}: same readout bytes as in one call", {"kind": "p1", "chunks": chunks, "chunks_ref": [stream], "sub": "cutdep"}):
+                        return
                 for r in rs:
                     if not readout_assertions(eng, ctx, r, w, f"reader window@{p} cuts={cuts}"):
                         return
@@ -181,7 +205,7 @@ def scenarios(tier):
            Scenario(f"direct: identification line with {5 if q else 7} free characters, no checksum", ident_path(1 if q else 3), bounds={"free": f"3 flag-id letters, baud digit, {1 if q else 3} id characters: any octet"},
                     domains=("p1",), frontier=7, assumptions=A, must_reach=("assert", "valid")),
            Scenario("genuine readout with a 1-octet free window at every offset, through ModeDReader", window_path(1, True),
-                    bounds={"readout_octets": len(FIXTURE), "window": 1, "splittings": "one call, cut before/after the window"}, domains=("p1",), frontier=3, assumptions=A, replay_cap=80),
+                    bounds={"readout_octets": len(FIXTURE), "window": 1, "splittings": "one call; cuts around the window, right before/after '!', inside and after the checksum - all must give the same readouts and validity"}, domains=("p1",), frontier=3, assumptions=A, replay_cap=80),
            ]
     if not q:
         out.append(Scenario("genuine readout with a 2-octet free window at every offset (direct)", window_path(2, False), bounds={"readout_octets": len(FIXTURE), "window": 2},
